@@ -91,6 +91,10 @@ func body() {
 		if !r.Skip(id) {
 			deleteDeadlock(id, seed, filepath.Join(dir, fmt.Sprintf("d%d", i)))
 		}
+		id = fmt.Sprintf("tsidelete/%d", i)
+		if i < 1 && !r.Skip(id) {
+			tsiDeleteDeadlock(id, seed, filepath.Join(dir, fmt.Sprintf("i%d", i)))
+		}
 	}
 	if !r.Skip("cluster/0") {
 		clusterWorkload("cluster/0", g.Int63(), filepath.Join(dir, "cl"))
@@ -721,7 +725,60 @@ func deleteDeadlock(caseID string, seed int64, dir string) {
 	r.Nontrivial("delete|" + fmt.Sprint(seed))
 }
 
-var reTargetFn = regexp.MustCompile(`(?m)^github\.com/influxdata/influxdb/[^\s(]+`)
+// tsiDeleteDeadlock issues deletes that span several measurements on a tsi1
+// shard whose log file is compacted after every write (the production trigger
+// is a log file reaching MaxIndexLogFileSize while a delete runs).
+func tsiDeleteDeadlock(caseID string, seed int64, dir string) {
+	r.Eval(1)
+	env := sm.NewEnv(dir, "tsi1")
+	env.TSILogSize = 1
+	if err := env.Open(); err != nil {
+		r.Inconclusive(caseID + ": open: " + err.Error())
+		return
+	}
+	g := rand.New(rand.NewSource(seed))
+	abandoned := false
+	defer func() {
+		if !abandoned {
+			env.Close()
+		}
+	}()
+	rounds := r.Pick(6, 40)
+	for k := 0; k < rounds; k++ {
+		nm := 2 + g.Intn(3)
+		for m := 0; m < nm; m++ {
+			env.Write([]sm.Point{{Series: sm.Series{Name: fmt.Sprintf("m%d", m), Tags: map[string]string{"host": "a"}}, Fields: map[string]sm.Val{"f0": {Kind: 'f', F: float64(k)}}, Time: int64(k)}})
+		}
+		var derr error
+		res, dump := ev.Watch(40*time.Second, 8*time.Second, func() {
+			derr = env.Delete(sm.Selector{TagEq: map[string]string{"host": "a"}}, 0, 0, false, false)
+		})
+		if res == ev.Deadlocked {
+			abandoned = true
+			site := "unknown-site"
+			if strings.Contains(dump, "tsi1.(*Partition).Wait") && strings.Contains(dump, "tsi1.(*LogFile).Close") {
+				site = "tsi1-delete-waits-for-log-compaction-that-waits-for-the-deletes-iterator"
+			} else {
+				site = deadlockSite(dump)
+			}
+			r.Violation("C19/deadlock/"+site, caseID, "a DROP SERIES WHERE host='a' spanning several measurements, issued by a single sequential client on a tsi1 shard, never returned: blocked goroutines are on the same stacks in two dumps taken 8 s apart", map[string]interface{}{"blocked": blockedTargetStacks(dump), "round": k})
+			return
+		}
+		if res == ev.Slow {
+			abandoned = true
+			r.Inconclusive(caseID + ": tsi1 delete did not return within the watchdog, no deadlock evidence")
+			return
+		}
+		if derr != nil {
+			r.Inconclusive(caseID + ": tsi1 delete error: " + derr.Error())
+			return
+		}
+		r.Count("tsi1_multi_measurement_deletes", 1)
+	}
+	r.Nontrivial("tsidelete|" + fmt.Sprint(seed))
+}
+
+var reTargetFn = regexp.MustCompile(`(?m)^github\.com/influxdata/influxdb/(?:\(\*\w+\)|[^\s(])+`)
 
 func blockedTargetStacks(dump string) []string {
 	var out []string
